@@ -49,10 +49,10 @@ Fixpoint sock_readline_aux (fuel : nat) (line : bytes) (s : sock) : bytes * sock
 Fixpoint chunks (l : list ev) : bytes :=
   match l with [] => [] | Chunk d :: t => d ++ chunks t | Fail :: t => chunks t end.
 (* the byte sequence the socket will ever deliver *)
-Definition abs (s : sock) : bytes := buf s ++ chunks (evs s).
+Definition sock_abs (s : sock) : bytes := buf s ++ chunks (evs s).
 
 Definition sock_readline (s : sock) : bytes * sock :=
-  sock_readline_aux (S (length (abs s))) [] s.
+  sock_readline_aux (S (length (sock_abs s))) [] s.
 
 (* "all failures come after the last data" *)
 Fixpoint tail_fail (l : list ev) : Prop :=
